@@ -499,6 +499,17 @@ func (e2eErr) WriteError(ctx *resolve.Context, err error, res *resolve.GraphQLRe
 
 // evalE2E returns, per event index, whether it was delivered to the subscriber.
 func evalE2E(t *ftree, as assignment, evs []event) ([]bool, string) {
+	got, problem := evalE2EShared(t, []assignment{as}, evs)
+	if got == nil {
+		return nil, problem
+	}
+	return got[0], problem
+}
+
+// evalE2EShared subscribes one subscriber per assignment on ONE trigger; all of them
+// use the SAME plan object (a cached plan), hence one *SubscriptionFilter, each with its
+// own variables. Returns delivered[subscriber][event].
+func evalE2EShared(t *ftree, ass []assignment, evs []event) ([][]bool, string) {
 	rctx, cancel := context.WithCancel(context.Background())
 	defer cancel()
 	r := resolve.New(rctx, resolve.ResolverOptions{MaxConcurrency: 8, AsyncErrorWriter: e2eErr{}})
@@ -511,12 +522,16 @@ func evalE2E(t *ftree, as assignment, evs []event) ([]bool, string) {
 			Fetches: resolve.Sequence(), Info: &resolve.GraphQLResponseInfo{}},
 		Filter: t.build(),
 	}
-	w := &e2eWriter{}
-	id := resolve.SubscriptionIdentifier{ConnectionID: 1, SubscriptionID: 1}
-	if err := r.AsyncResolveGraphQLSubscription(filterCtx(as), plan, w, id); err != nil {
-		return nil, "subscribe: " + err.Error()
+	var ws []*e2eWriter
+	for i, as := range ass {
+		w := &e2eWriter{}
+		ws = append(ws, w)
+		id := resolve.SubscriptionIdentifier{ConnectionID: resolve.ConnectionID(i + 1), SubscriptionID: 1}
+		if err := r.AsyncResolveGraphQLSubscription(filterCtx(as), plan, w, id); err != nil {
+			return nil, "subscribe: " + err.Error()
+		}
+		synctest.Wait()
 	}
-	synctest.Wait()
 	src.mu.Lock()
 	up := src.up
 	src.mu.Unlock()
@@ -527,23 +542,29 @@ func evalE2E(t *ftree, as assignment, evs []event) ([]bool, string) {
 		up.Update([]byte(e.payload(i)))
 		synctest.Wait()
 	}
-	_ = r.UnsubscribeSubscription(id)
+	for i := range ass {
+		_ = r.UnsubscribeSubscription(resolve.SubscriptionIdentifier{ConnectionID: resolve.ConnectionID(i + 1), SubscriptionID: 1})
+	}
 	cancel()
 	synctest.Wait()
-	got := make([]bool, len(evs))
 	problem := ""
-	for _, m := range w.msgs {
-		var n int
-		if _, err := fmt.Sscanf(m, `{"data":{"n":%d}}`, &n); err != nil || n < 0 || n >= len(evs) {
-			problem = "unexpected message " + m
-			continue
+	out := make([][]bool, len(ass))
+	for si, w := range ws {
+		got := make([]bool, len(evs))
+		for _, m := range w.msgs {
+			var n int
+			if _, err := fmt.Sscanf(m, `{"data":{"n":%d}}`, &n); err != nil || n < 0 || n >= len(evs) {
+				problem = "unexpected message " + m
+				continue
+			}
+			if got[n] {
+				problem = fmt.Sprintf("event %d delivered twice", n)
+			}
+			got[n] = true
 		}
-		if got[n] {
-			problem = fmt.Sprintf("event %d delivered twice", n)
-		}
-		got[n] = true
+		out[si] = got
 	}
-	return got, problem
+	return out, problem
 }
 
 func e2eTrees() []*ftree {
@@ -576,18 +597,57 @@ func filterPart(run *vk.Run, expired func() bool) {
 		confirmed[f.clause+f.site] = true
 		run.Violate(vk.Violation{Clause: f.clause, Site: f.site, Class: fClass, Detail: "part E (real SubscriptionFilter.SkipEvent against the reference evaluation): " + f.detail, Input: input})
 	}
+	shared := []*ftree{in(fieldID, atA), in(fieldID, atA, atB), not(in(fieldID, atA)), in(fieldID, atArr)}
+	groups := [][]int{{0, 1, 4}, {4, 1, 0}, {0, 4}, {4, 0}, {1, 3}}
+	sharedFindings := func(ti, gi int) []fFinding {
+		g := groups[gi]
+
+		var ga []assignment
+		for _, i := range g {
+			ga = append(ga, as[i])
+		}
+		got, problem := evalE2EShared(shared[ti], ga, evs)
+		var fs []fFinding
+		if problem != "" || got == nil {
+			fs = append(fs, fFinding{clMust, "end to end delivery problem", fmt.Sprintf("shared filter %s: %s", shared[ti], problem)})
+		}
+		for si := range got {
+			for j := range got[si] {
+				want := shared[ti].passes(evs[j], ga[si])
+				if got[si][j] == want {
+					continue
+				}
+				// right for the subscriber alone, wrong next to the others: the verdict is not its own
+				if alone, _ := evalDirect(shared[ti], ga[si], evs[j]); alone == want {
+					cl, v := clMust, "dropped"
+					if got[si][j] {
+						cl, v = clMay, "delivered"
+					}
+					fs = append(fs, fFinding{cl, "subscribers sharing one filter object with different variables: an event is " + v + " by another subscriber's verdict",
+						fmt.Sprintf("filter %s shared by %d subscribers on one trigger; subscriber #%d with variables %s: event field %s is %s, alone (and by the reference) it is not", shared[ti], len(ga), si+1, ga[si].json(), evs[j].name, v)})
+				} else {
+					fs = append(fs, judge(shared[ti], ga[si], evs[j], got[si][j], nil, "end to end, shared filter")...)
+				}
+			}
+		}
+		return fs
+	}
 	if run.Replay != "" {
 		var inp struct {
 			Scenario            string `json:"scenario"`
 			Tree, Assign, Event int
 			E2E                 bool `json:"e2e"`
+			Shared              bool `json:"shared"`
 		}
 		if err := run.ReplayInput(&inp); err != nil || inp.Scenario != fScen {
 			return
 		}
 		for i := 0; i < 5; i++ {
 			var fs []fFinding
-			if inp.E2E {
+			if inp.Shared {
+				fs = sharedFindings(inp.Tree, inp.Assign)
+				fmt.Printf("replay %d: shared filter %s, subscriber group %v: %d findings\n", i, shared[inp.Tree], groups[inp.Assign], len(fs))
+			} else if inp.E2E {
 				got, problem := evalE2E(e2e[inp.Tree], as[inp.Assign], evs)
 				fmt.Printf("replay %d: end to end %s, %s: delivered %v %s\n", i, e2e[inp.Tree], as[inp.Assign].json(), got, problem)
 				for j := range got {
@@ -667,6 +727,23 @@ func filterPart(run *vk.Run, expired func() bool) {
 			_ = a
 			for _, f := range all() {
 				record(f, map[string]any{"scenario": fScen, "tree": ti, "assign": ai, "e2e": true}, all)
+			}
+		}
+	}
+	// several subscribers on ONE trigger sharing ONE filter object, each with its own
+	// variables: every subscriber must get exactly what ITS variables select
+	run.Bound("E:shared_filter_cases(trees x subscriber groups)", len(shared)*len(groups))
+	for ti := range shared {
+		for gi, g := range groups {
+			if !run.Mine(int64(ti*len(groups) + gi)) {
+				continue
+			}
+			ti, gi := ti, gi
+			all := func() []fFinding { return sharedFindings(ti, gi) }
+			run.Eval(int64(len(evs) * len(g)))
+			run.Count("E:shared_filter_runs", 1)
+			for _, f := range all() {
+				record(f, map[string]any{"scenario": fScen, "tree": ti, "assign": gi, "shared": true}, all)
 			}
 		}
 	}
